@@ -61,6 +61,15 @@ CHECKS = {
  "C18": ("exploration", "runtime monitor: import spec and qualifier of rendered files vs. the package clause parsed from GOROOT/src/<path>; the gennames tool of the tree is run and its table checked the same way",
          "Every importable std package directory (297 on this toolchain) alone and with prefix, every ordered pair/group sharing a declared name or last path element, all at once in two orders; gennames run offline, every table entry checked, and the cases repeated with ImportNames(table). Enumerated completely in both tiers.",
          TB + " GOROOT/src of the installed toolchain is the ground truth.", "5 C18"),
+ "C02": ("exploration", "runtime monitor: twin builds (formatted vs NoFormat) compared through go/format, go/parser on every output, per-case recover; random compositions over the API table by reflection, and damaged real programs",
+         "Random compositions over every construct (valid and nonsensical) under random File settings, one third grammar-biased; formatted output must equal gofmt(raw twin), errors iff gofmt rejects, nothing written on error, no panic; fragments through Statement/Group Render/RenderWithFile/GoString; recovered contract panics before judged renders; real programs with one damaged list.",
+         TB + " Documented contract panics and API misuse are outside the domain.", "5 C02"),
+ "C09": ("exploration", "Go race detector (go build -race, reports read back from GORACE log_path) + output equality of every job across sequential permutations, interleavings, 16-goroutine concurrent rounds and fresh processes; shared sub-statements vs fresh copies",
+         "400/3,000 jobs (import scenarios, random compositions, map-rich recipes, corpus programs) in 3/8 permutations, build-then-render and re-render passes, 3/8 concurrent rounds on 16 goroutines under the race detector, 6/12 fresh processes running the whole list in their own order, 40/400 jobs alone in a fresh process; 600/8,000 sharing sequences.",
+         TB + " The race detector reports only races that are executed; interleavings are sampled.", "5 C09"),
+ "C10": ("fault_enumeration", "runtime monitor: instrumented io.Writer (calls, bytes, programmable full/partial failure), probe nodes that fail mid-render, filesystem snapshots (content hash, mode, mtime, inode) around Save",
+         "For every tree the complete fault x entry-point matrix: formatter error, render error at node i, writer error on write k (full and partial), and for Save: new / existing longer / existing empty file, directory target, missing parent, component is a file, name too long, /dev/full. Trees (real programs, every third damaged, and random compositions) are sampled.",
+         TB + " Running as root: an unwritable directory is realised by the other failing targets.", "5 C10"),
 }
 
 NOT_YET = {}
